@@ -427,7 +427,7 @@ fn verify_checksum_short() { kani::cover!(true); verify_case::<1, 7>(true); }
 
 #[kani::proof]
 #[kani::solver(kissat)]
-#[kani::unwind(13)]
+#[kani::unwind(34)]
 #[kani::stub(core::str::slice_error_fail, stub_slice_error_fail)]
 fn verify_checksum_long() { kani::cover!(true); verify_case::<1, 9>(true); }
 
